@@ -8,8 +8,6 @@ use ipp::reader::IppReader;
 use std::io::{self, Cursor, Read};
 
 pub const XN: usize = 64;
-/// reference interpretation of a message: groups in wire order, each with (name, value) pairs
-pub type Tree = Vec<(u8, Vec<(&'static str, IppValue)>)>;
 
 #[cfg(kani)]
 pub type CMap = ipp::verif_shim::BTreeMap<String, IppValue>;
@@ -39,9 +37,9 @@ pub trait Shape {
     fn canonical(x: &[u8; XN]);
     fn wire(x: &[u8; XN]) -> Vec<u8>;
     fn encoder_wires(x: &[u8; XN]) -> Vec<Vec<u8>>;
-    fn expect(x: &[u8; XN]) -> Tree;
-    /// in-memory form for the encode direction: starts with the operation group (possibly empty)
-    fn expect_enc(x: &[u8; XN]) -> Tree;
+    /// in-memory form for the encode direction, built through the public API; it starts with the
+    /// operation group (possibly empty), which is C01's domain
+    fn build(x: &[u8; XN]) -> IppAttributes;
     /// shape-directed comparison of parsed attributes with the reference interpretation
     fn check(attrs: &IppAttributes, x: &[u8; XN]);
     fn check_enc(attrs: &IppAttributes, x: &[u8; XN]);
@@ -75,59 +73,6 @@ pub fn check_header(h: &IppHeader, x: &[u8; XN]) {
     assert!(h.version.0 == u16::from_be_bytes([x[0], x[1]]), "header: version");
     assert!(h.operation_or_status == u16::from_be_bytes([x[2], x[3]]), "header: operation/status");
     assert!(h.request_id == u32::from_be_bytes([x[4], x[5], x[6], x[7]]), "header: request-id");
-}
-
-/// the parsed attributes are exactly the reference tree: same groups in the same order, in every
-/// group exactly the expected names bound to the expected values
-pub fn check_tree(attrs: &IppAttributes, exp: &Tree) {
-    let gs = attrs.groups();
-    assert!(gs.len() == exp.len(), "number of groups");
-    let mut i = 0;
-    while i < exp.len() {
-        assert!(gs[i].tag() as u8 == exp[i].0, "group kind / order");
-        let am = gs[i].attributes();
-        assert!(am.len() == exp[i].1.len(), "number of attributes in group");
-        let mut j = 0;
-        while j < exp[i].1.len() {
-            match am.get(exp[i].1[j].0) {
-                Some(a) => {
-                    assert!(a.name() == exp[i].1[j].0, "attribute name");
-                    assert!(*a.value() == exp[i].1[j].1, "attribute value");
-                }
-                None => assert!(false, "attribute missing from its group"),
-            }
-            j += 1;
-        }
-        i += 1;
-    }
-}
-
-/// in-memory message from a tree, through the public API only: `add` where it can express the
-/// shape, `groups_mut().push` for empty and repeated groups (which `add` cannot create)
-pub fn build_attrs(t: Tree) -> IppAttributes {
-    let mut attrs = IppAttributes::new();
-    let mut seen = [false; 8];
-    for (tag, items) in t {
-        let dt = match tag {
-            1 => DelimiterTag::OperationAttributes,
-            2 => DelimiterTag::JobAttributes,
-            4 => DelimiterTag::PrinterAttributes,
-            _ => DelimiterTag::UnsupportedAttributes,
-        };
-        if items.is_empty() || seen[tag as usize] {
-            let mut g = IppAttributeGroup::new(dt);
-            for (n, v) in items {
-                g.attributes_mut().insert(n.to_string(), IppAttribute::new(n, v));
-            }
-            attrs.groups_mut().push(g);
-        } else {
-            for (n, v) in items {
-                attrs.add(dt, IppAttribute::new(n, v));
-            }
-        }
-        seen[tag as usize] = true;
-    }
-    attrs
 }
 
 pub fn header_of(x: &[u8; XN]) -> IppHeader {
@@ -195,7 +140,7 @@ pub fn t_parse_raw<S: Shape>(inp: &mut Inp) {
 pub fn t_encode<S: Shape>(inp: &mut Inp) {
     let x = draw::<S>(inp);
     S::canonical(&x);
-    let attrs = build_attrs(S::expect_enc(&x));
+    let attrs = S::build(&x);
     let h = header_of(&x);
     let b = encode(&h, &attrs);
     let refs = S::encoder_wires(&x);
@@ -217,7 +162,7 @@ pub fn t_encode<S: Shape>(inp: &mut Inp) {
 pub fn t_roundtrip<S: Shape>(inp: &mut Inp) {
     let x = draw::<S>(inp);
     S::canonical(&x);
-    let attrs = build_attrs(S::expect_enc(&x));
+    let attrs = S::build(&x);
     let h = header_of(&x);
     let b = leak_vec(encode(&h, &attrs));
     match IppParser::new(IppReader::new(Cursor::new(b))).parse() {
